@@ -1,5 +1,450 @@
+"""C07 — Patches apply only on the agreed base; a refused merge changes nothing."""
+import re
+from .. import cfg, idioms
+from ..flow import FlowGraph
+from ..idioms import EVENTLOG, cname, is_noise
+
+COMPARISON = "sos_core::commit::proof::Comparison"
+CHECKED_PATCH = "sos_core::events::patch::CheckedPatch"
+
+# Methods of an event log that change storage or tree.
+MUTATORS = {"patch_unchecked", "apply_records", "apply", "insert_records", "clear",
+            "replace_all_events", "rewind", "truncate", "delete_all_events",
+            "insert_events", "delete_one"}
+DESTRUCTIVE = {"clear", "truncate", "delete_all_events"}
+RESTORERS = re.compile(r"::(try_rollback_snapshot|rollback_snapshot|restore_snapshot)$")
+ROLLBACK = re.compile(r"rollback_rewind")
+REVERSERS = {"reverse", "rev", "sort_by", "sort_by_key", "sort"}
+
+
+def log_impl_methods(ws, method):
+    return ws.impl_methods(EVENTLOG, method)
+
+
+def is_delegate(body, method):
+    """Enum-dispatch impl: every real call is the same-named method on the
+    inner value."""
+    names = [cname(t) for _i, t in idioms.real_calls(body, cfg.live_blocks(body))]
+    names = [n for n in names if n not in ("pin", "new")]
+    return bool(names) and all(n == method for n in names)
+
+
+def r1_gate(ctx):
+    ws = ctx.ws
+    r = ctx.rule("C07-R1", "patch_checked mutates only under Comparison::Equal with the given proof",
+                 floor=3, kind="K2 edge dominance + K4 value flow")
+    fns = log_impl_methods(ws, "patch_checked")
+    if not fns:
+        r.anchor_missing("impls of EventLog::patch_checked")
+        return
+    for fn in fns:
+        body = cfg.code_body(ws, fn)
+        where = cfg.loc(body)
+        key = fn.root
+        if is_delegate(body, "patch_checked"):
+            r.ok(key + "|delegate", where, "enum dispatch: delegates to the inner patch_checked only",
+                 work=len(body.blocks))
+            continue
+        live = cfg.live_blocks(body)
+        muts = [(i, t) for i, t in idioms.real_calls(body, live) if cname(t) in MUTATORS]
+        sws = cfg.enum_switches(body, re.compile(re.escape(COMPARISON) + "$"))
+        if not muts:
+            r.violation(key + "|no-mutation", where,
+                        "patch_checked neither applies the patch nor delegates: the accept path is gone",
+                        work=len(body.blocks))
+            continue
+        if not sws:
+            r.violation(key + "|no-gate", where,
+                        "patch_checked applies records without switching on the Comparison verdict",
+                        work=len(body.blocks))
+            continue
+        fg = FlowGraph(ws, fn)
+        # (a) the verdict comes from compare(<the commit_proof parameter>)
+        gate_ok = False
+        for es in sws:
+            sl = fg.back([fg.key(body, es.place)])
+            cmps = sl.calls_matching(re.compile(r"CommitTree::compare$"))
+            for (cb, ci, ct) in cmps:
+                if len(ct["args"]) >= 2:
+                    asl = fg.back_from_operand(cb, ct["args"][1])
+                    if asl.has_var(cb, "commit_proof") or any(
+                            cb.vars.get(k) == "commit_proof" for k in cb.vars
+                            if (cb.path, "c" + k.split(".f")[-1].rstrip(":")) in asl.nodes):
+                        gate_ok = True
+        if gate_ok:
+            r.ok(key + "|gate-source", where, "verdict derives from tree.compare(commit_proof)",
+                 work=len(fg.dep))
+        else:
+            r.violation(key + "|gate-source", where,
+                        "the Comparison switched on does not derive from CommitTree::compare(<commit_proof parameter>)",
+                        work=len(fg.dep))
+        # (b) each mutating call is reachable only through the Equal edge
+        for (mi, mt) in muts:
+            cut = set()
+            for es in sws:
+                if "Equal" in es.targets:
+                    cut.add((es.block, es.targets["Equal"]))
+            reachable = mi in cfg.reach(body, [0], cut_edges=cut)
+            k2 = "%s|mutator:%s" % (key, cname(mt))
+            if reachable:
+                p = cfg.find_path(body, [0], [mi], cut_edges=cut)
+                r.violation(k2, cfg.loc(body, mi),
+                            "%s is reachable without passing the Comparison::Equal edge (applies a patch on a base the sender did not agree on)" % cname(mt),
+                            work=len(body.blocks), witness=cfg.path_lines(body, p))
+            else:
+                r.ok(k2, cfg.loc(body, mi), "%s only under Comparison::Equal" % cname(mt), work=len(body.blocks))
+        # (c) Success is constructed only under Equal
+        for i in sorted(live):
+            for s in body.blocks[i]["s"]:
+                if s.get("k") == "agg" and s.get("adt") == CHECKED_PATCH and s.get("variant") == "Success":
+                    cut = {(es.block, es.targets["Equal"]) for es in sws if "Equal" in es.targets}
+                    if i in cfg.reach(body, [0], cut_edges=cut):
+                        r.violation(key + "|success-outside-equal", cfg.loc(body, i),
+                                    "CheckedPatch::Success is produced on a path that does not pass the Equal edge",
+                                    work=len(body.blocks))
+                    else:
+                        r.ok(key + "|success-under-equal", cfg.loc(body, i), "Success only under Equal", work=len(body.blocks))
+
+
+def r2_replace_all(ctx):
+    ws = ctx.ws
+    r = ctx.rule("C07-R2", "replace_all_events: a failed checkpoint verification restores the log",
+                 floor=3, kind="K2 must-pass-through")
+    fns = log_impl_methods(ws, "replace_all_events")
+    if not fns:
+        r.anchor_missing("impls of EventLog::replace_all_events")
+        return
+    for fn in fns:
+        body = cfg.code_body(ws, fn)
+        key = fn.root
+        where = cfg.loc(body)
+        if is_delegate(body, "replace_all_events"):
+            r.ok(key + "|delegate", where, "enum dispatch", work=len(body.blocks))
+            continue
+        live = cfg.live_blocks(body)
+        destructive = []
+        for i, t in idioms.real_calls(body, live):
+            n = cname(t)
+            if n in DESTRUCTIVE:
+                destructive.append((i, t, n))
+            elif n == "insert_records" and len(t["args"]) >= 3:
+                c = cfg.op_const(t["args"][2])
+                if c is None or c.get("b") is not False:
+                    destructive.append((i, t, "insert_records(delete_before)"))
+        # blocks that build the verification error
+        verr = []
+        for i in sorted(live):
+            for s in body.blocks[i]["s"]:
+                if s.get("k") == "agg" and s.get("variant") == "CheckpointVerification":
+                    verr.append(i)
+        if not verr:
+            r.violation(key + "|no-verification", where,
+                        "replace_all_events never reports CheckpointVerification: the new head is not verified against the checkpoint",
+                        work=len(body.blocks))
+            continue
+        if not destructive:
+            r.ok(key + "|verify-before-destroy", where,
+                 "no destructive step in this body", work=len(body.blocks))
+            continue
+        restorers = [i for i, t in idioms.real_calls(body, live) if cfg.call_matches(t, RESTORERS)]
+        for (di, dt, dn) in destructive:
+            start, _at = idioms.success_start(body, di)
+            bad = cfg.find_path(body, start, verr, cut_blocks=restorers)
+            k2 = "%s|destroy:%s" % (key, dn)
+            if bad:
+                r.violation(k2, cfg.loc(body, di),
+                            "after %s the CheckpointVerification error is returned on a path with no restoring call: a refused replace-all leaves the log replaced" % dn,
+                            work=len(body.blocks), witness=cfg.path_lines(body, bad))
+            else:
+                r.ok(k2, cfg.loc(body, di),
+                     "every path from %s to the verification error passes a restore" % dn, work=len(body.blocks))
+
+
+def rewind_sites(ws):
+    """Functions outside the log implementations that rewind a log, with
+    wrappers (functions that only return the rewind result) resolved to
+    their callers. Returns list of (fn, body, block, term, via)."""
+    impl_roots = set()
+    for i in ws.impls_of(EVENTLOG):
+        for it in i["items"]:
+            impl_roots.add(it["path"])
+    sites = []
+    for f in ws.fns.values():
+        if f.root in impl_roots or f.crate in idioms.TEST_CRATES:
+            continue
+        for b, i, t in f.calls():
+            if idioms.is_trait_call(t, EVENTLOG, "rewind") and i in cfg.live_blocks(b):
+                sites.append((f, b, i, t, "rewind"))
+    # wrappers: no rollback inside, and the function returns the records
+    out = []
+    by_fn = {}
+    for s in sites:
+        by_fn.setdefault(s[0].root, []).append(s)
+    wrappers = {}
+    for root, ss in by_fn.items():
+        f = ss[0][0]
+        has_rb = any(cfg.call_matches(t, ROLLBACK) or cname(t) == "apply_records" for _b, _i, t in f.calls())
+        body = cfg.code_body(ws, f)
+        out_ty = (f.meta.get("output") or "")
+        returns_records = "EventRecord" in out_ty
+        if not has_rb and returns_records:
+            wrappers[root] = f
+        else:
+            out.extend(ss)
+    if wrappers:
+        rx = re.compile("|".join(re.escape(w) + "$" for w in wrappers))
+        for (f, b, i, t) in idioms.callers_of(ws, rx, idioms.TEST_CRATES):
+            if i in cfg.live_blocks(b):
+                out.append((f, b, i, t, "wrapper " + idioms.last_seg(t.get("callee"))))
+    return out, wrappers
+
+
+def r3_rewind_undone(ctx):
+    ws = ctx.ws
+    r = ctx.rule("C07-R3", "every exit after a rewind carries Success or passes through the rollback",
+                 floor=6, kind="K2 must-pass-through")
+    sites, wrappers = rewind_sites(ws)
+    if not sites:
+        r.anchor_missing("callers of EventLog::rewind outside the log implementations")
+        return
+    r.note("rewind wrappers: %s" % sorted(wrappers))
+    seen = set()
+    for (f, b, i, t, via) in sites:
+        body = b
+        start, at = idioms.success_start(body, i)
+        # cut: rollback calls, and the non-Conflict edges of CheckedPatch switches
+        rb = [j for j, tt in idioms.real_calls(body) if cfg.call_matches(tt, ROLLBACK)]
+        cut_edges = set()
+        for es in cfg.enum_switches(body, re.compile(re.escape(CHECKED_PATCH) + "$")):
+            for v, tgt in es.targets.items():
+                if v != "Conflict":
+                    cut_edges.add((es.block, tgt))
+            if es.otherwise_live and "Conflict" in es.targets:
+                cut_edges.add((es.block, es.otherwise))
+        ex = cfg.exits(body)
+        reach = cfg.reach(body, start, cut_blocks=rb, cut_edges=cut_edges)
+        bad = [e for e in ex if e.block in reach]
+        base = "%s|after:%s" % (f.root, via if via != "rewind" else "rewind")
+        if not bad:
+            k = base + "|all-exits"
+            if k not in seen:
+                seen.add(k)
+                r.ok(k, cfg.loc(body, i), "all exits after the rewind are Success or rolled back", work=len(reach))
+            continue
+        for e in bad:
+            fb, ft = idioms.failing_call_of_exit(body, e.block) if e.kind == "err" else (None, None)
+            what = cname(ft) if ft else e.kind
+            k = "%s|exit-after:%s" % (f.root, what)
+            if k in seen:
+                continue
+            seen.add(k)
+            p = cfg.find_path(body, start, [e.block], cut_blocks=rb, cut_edges=cut_edges)
+            r.violation(k, cfg.loc(body, e.block),
+                        "an exit (%s%s) is reachable after a completed rewind without Success and without rollback: the log stays truncated when the request fails" % (
+                            e.kind, (" of `%s`" % what) if ft else ""),
+                        work=len(reach), witness=cfg.path_lines(body, p))
+
+
+def rewind_order(ws):
+    """How each rewind impl orders the records it returns: 'newest-first'
+    when pushed during reverse iteration with no reversal before return."""
+    out = {}
+    for fn in log_impl_methods(ws, "rewind"):
+        body = cfg.code_body(ws, fn)
+        if is_delegate(body, "rewind"):
+            continue
+        names = [cname(t) for _i, t in idioms.real_calls(body, cfg.live_blocks(body))]
+        rev_iter = False
+        for _i, t in idioms.real_calls(body, cfg.live_blocks(body)):
+            if cname(t) in ("iter", "record_stream") and t["args"]:
+                c = cfg.op_const(t["args"][-1])
+                if c is not None and c.get("b") is True:
+                    rev_iter = True
+        pushes = "push" in names
+        undone = any(n in ("reverse", "insert", "rev") for n in names)
+        if rev_iter and pushes and not undone:
+            out[fn.root] = "newest-first"
+        elif rev_iter and undone:
+            out[fn.root] = "oldest-first"
+        else:
+            out[fn.root] = "unknown"
+    return out
+
+
+def r4_rollback_order(ctx):
+    ws = ctx.ws
+    r = ctx.rule("C07-R4", "rolled-back records are re-applied in their original order",
+                 floor=2, kind="K4 taint with sanitizer")
+    orders = rewind_order(ws)
+    if not orders:
+        r.anchor_missing("non-delegating impls of EventLog::rewind")
+        return
+    kinds = set(orders.values())
+    r.note("rewind result order per impl: %s" % orders)
+    if len(kinds) != 1 or "unknown" in kinds:
+        for root, o in orders.items():
+            r.violation(root + "|rewind-order", "-",
+                        "rewind implementations disagree on (or hide) the order of the returned records: %s" % orders, work=1)
+        return
+    order = kinds.pop()
+    sites, _w = rewind_sites(ws)
+    done = set()
+    for (f, b, i, t, via) in sites:
+        fg = FlowGraph(ws, f)
+        # sinks in this function: apply_records directly, or a workspace callee
+        for sb, si, st in f.calls():
+            if is_noise(st):
+                continue
+            n = cname(st)
+            sink_body, sink_fn = None, None
+            if n == "apply_records":
+                arg = st["args"][-1]
+                sl = fg.back_from_operand(sb, arg)
+                if not any(cb is b and ci == i for cb, ci, _t in sl.calls):
+                    continue
+                rev = any(cname(ct) in REVERSERS for _cb, _ci, ct in sl.calls)
+                k = "%s|direct-apply" % f.root
+                if k in done:
+                    continue
+                done.add(k)
+                _verdict(r, k, cfg.loc(sb, si), order, rev, len(sl.nodes))
+            elif cfg.call_matches(st, ROLLBACK):
+                callee = ws.fns.get(st.get("resolved") or st.get("callee"))
+                # which argument carries the records?
+                carried = None
+                for ai, a in enumerate(st["args"]):
+                    sl = fg.back_from_operand(sb, a)
+                    if any(cb is b and ci == i for cb, ci, _t in sl.calls):
+                        carried = (ai, sl)
+                if carried is None or callee is None:
+                    continue
+                ai, sl = carried
+                rev_here = any(cname(ct) in REVERSERS for _cb, _ci, ct in sl.calls)
+                cbody = cfg.code_body(ws, callee)
+                cfgraph = FlowGraph(ws, callee)
+                pname = callee.main.vars.get(str(ai + 1))
+                nsinks = 0
+                rev_there_all = True
+                for tb, ti, tt in callee.calls():
+                    if cname(tt) == "apply_records" and not is_noise(tt):
+                        tsl = cfgraph.back_from_operand(tb, tt["args"][-1])
+                        if pname and not tsl.has_var(tb, pname) and not tsl.has_var(callee.main, pname):
+                            continue
+                        nsinks += 1
+                        if not any(cname(ct) in REVERSERS for _cb, _ci, ct in tsl.calls):
+                            rev_there_all = False
+                k = "%s|via:%s" % (f.root, idioms.last_seg(st.get("callee")))
+                if k in done:
+                    continue
+                done.add(k)
+                if nsinks == 0:
+                    r.violation(k, cfg.loc(sb, si),
+                                "the rollback helper never re-applies the records it is given", work=len(sl.nodes))
+                else:
+                    _verdict(r, k, cfg.loc(sb, si), order, rev_here or rev_there_all, len(sl.nodes) + len(cfgraph.dep))
+
+
+def _verdict(r, key, where, order, reversed_, work):
+    if order == "newest-first" and not reversed_:
+        r.violation(key, where,
+                    "records returned by rewind are newest-first but are re-applied without reversal: rolling back more than one record restores them in the wrong order",
+                    work=work)
+    elif order == "oldest-first" and reversed_:
+        r.violation(key, where,
+                    "records returned by rewind are already oldest-first but are reversed before being re-applied", work=work)
+    else:
+        r.ok(key, where, "rewind returns %s; re-applied %s" % (order, "reversed" if reversed_ else "as is"), work=work)
+
+
+def r5_replay_after_accept(ctx):
+    """Side effects of merge_* implementations happen only on the Success
+    edge of the patch_checked verdict, and the verdict returned is that one."""
+    ws = ctx.ws
+    r = ctx.rule("C07-R5", "merge side effects are dominated by CheckedPatch::Success of patch_checked",
+                 floor=6, kind="K2 edge dominance")
+    targets = []
+    for tr, meths in (("sos_sync::traits::Merge", ("merge_identity", "merge_account", "merge_device", "merge_files", "merge_folder")),
+                      ("sos_sync::traits::ForceMerge", ()),
+                      ("sos_client_storage::folder_sync::FolderMerge", ("merge",))):
+        for m in meths:
+            for fn in ws.impl_methods(tr, m):
+                targets.append(fn)
+    # FolderMerge may live elsewhere: find by method name `merge` on trait named FolderMerge
+    for tp in ws.traits:
+        if tp.endswith("::FolderMerge"):
+            for fn in ws.impl_methods(tp, "merge"):
+                if fn not in targets:
+                    targets.append(fn)
+    if not targets:
+        r.anchor_missing("impls of Merge::merge_* / FolderMerge::merge")
+        return
+    for fn in targets:
+        body = cfg.code_body(ws, fn)
+        live = cfg.live_blocks(body)
+        pcs = [(i, t) for i, t in idioms.real_calls(body, live) if cname(t) == "patch_checked"]
+        key = fn.root
+        if not pcs:
+            # delegates to another merge (e.g. account -> storage); accepted when it calls a same-named/merge method
+            names = {cname(t) for _i, t in idioms.real_calls(body, live)}
+            if names & {"merge", "merge_identity", "merge_account", "merge_device", "merge_files", "merge_folder"}:
+                r.ok(key + "|delegate", cfg.loc(body), "delegates to another merge implementation", work=len(body.blocks))
+            else:
+                r.violation(key + "|no-patch-checked", cfg.loc(body),
+                            "merge implementation applies a diff without patch_checked", work=len(body.blocks))
+            continue
+        sws = cfg.enum_switches(body, re.compile(re.escape(CHECKED_PATCH) + "$"))
+        cut = set()
+        for es in sws:
+            if "Success" in es.targets:
+                cut.add((es.block, es.targets["Success"]))
+        effects = []
+        for i, t in idioms.real_calls(body, live):
+            n = cname(t)
+            if n in EFFECTS:
+                effects.append((i, t, n))
+        if not effects:
+            r.ok(key + "|no-effects", cfg.loc(body), "no replay side effects in this body", work=len(body.blocks))
+            continue
+        if not sws:
+            r.violation(key + "|no-switch", cfg.loc(body),
+                        "side effects %s are performed without testing the CheckedPatch verdict" % sorted({n for _i, _t, n in effects}),
+                        work=len(body.blocks))
+            continue
+        reach = cfg.reach(body, [0], cut_edges=cut)
+        for (i, t, n) in effects:
+            k = "%s|effect:%s" % (key, n)
+            if i in reach:
+                p = cfg.find_path(body, [0], [i], cut_edges=cut)
+                r.violation(k, cfg.loc(body, i),
+                            "%s runs on a path that does not pass the CheckedPatch::Success edge: a refused merge changes derived state" % n,
+                            work=len(body.blocks), witness=cfg.path_lines(body, p))
+            else:
+                r.ok(k, cfg.loc(body, i), "%s only after Success" % n, work=len(body.blocks))
+
+
+# Calls that change derived state when a merge replays events.
+EFFECTS = {"create_secret", "update_secret", "delete_secret", "set_vault_name",
+           "set_vault_flags", "set_vault_meta", "import_folder", "delete_folder",
+           "remove_folder", "rename_folder", "update_folder_flags", "set_devices",
+           "restore_folder", "replay_account_event", "import_login_vault", "add_folder",
+           "remove", "prepare", "commit", "insert_folder", "set_folder_name",
+           "update_vault", "refresh_vault", "delete_folder_files"}
+
+
 def run(ctx):
-    ctx.explanation = "stub"
-    r = ctx.rule("C07-R0", "stub", floor=0)
-    r.ok("x", "-", "stub")
-    r.ok("y", "-", "stub")
+    ctx.explanation = (
+        "Static path and value-flow rules over the MIR of every EventLog implementation and of every caller of "
+        "rewind / patch_checked / replace_all_events in the workspace: (R1) a patch is applied only on the "
+        "Comparison::Equal edge of a comparison with the caller's proof; (R2) every path from a destructive step of "
+        "replace_all_events to the CheckpointVerification error passes a restore; (R3) every function exit after a "
+        "completed rewind carries Success or passes the rollback; (R4) rolled-back records are re-applied in original "
+        "order; (R5) merge side effects are dominated by the Success edge. Decides these structural necessary "
+        "conditions on every path of every implementation; does not decide equality of log contents over histories.")
+    ctx.trust("rustc nightly MIR construction (mir_built)", "rs_merkle proof verification",
+              "callee resolution by rustc Instance::try_resolve")
+    ctx.assume("restoring calls are recognised by name (try_rollback_snapshot); rollback helpers by name (rollback_rewind)")
+    r1_gate(ctx)
+    r2_replace_all(ctx)
+    r3_rewind_undone(ctx)
+    r4_rollback_order(ctx)
+    r5_replay_after_accept(ctx)
